@@ -147,7 +147,16 @@ impl Cfg {
     pub fn reader_config(&self) -> ArchiveReaderConfig {
         let mut c = ArchiveReaderConfig::new();
         if self.layers & L_ENC != 0 && !self.recipients.is_empty() {
-            c.add_private_keys(&[StaticSecret::from(self.recipients[self.reader])]);
+            // reader-side builder histories (chosen by a key byte, so a case replays identically): the key of
+            // the reader alone, or among decoy keys given before / after it in the same or in separate calls
+            let key = self.recipients[self.reader];
+            let decoy = |n: u8| { let mut d = key; d[0] ^= 0x5a; d[31] = d[31].wrapping_add(n); StaticSecret::from(d) };
+            match key[2] % 4 {
+                0 => { c.add_private_keys(&[StaticSecret::from(key)]); }
+                1 => { c.add_private_keys(&[decoy(1)]); c.add_private_keys(&[StaticSecret::from(key)]); }
+                2 => { c.add_private_keys(&[StaticSecret::from(key), decoy(2)]); }
+                _ => { c.add_private_keys(&[decoy(3)]); c.add_private_keys(&[]); c.add_private_keys(&[StaticSecret::from(key)]); c.add_private_keys(&[decoy(4)]); }
+            }
         }
         c
     }
